@@ -8,7 +8,7 @@ import c14 as c14mod
 NSHARDS = min(16, os.cpu_count() or 4)
 
 
-def generic(profile="verif", extra_sets=(), timeout_quick=1500, timeout_thorough=4 * 3600, nshards=None, thorough_profiles=(), env=None, pre=None):
+def generic(profile="verif", extra_sets=(), timeout_quick=1500, timeout_thorough=4 * 3600, nshards=None, thorough_profiles=(), env=None, pre=None, sanitizers=()):
     def run(ctx):
         ctx["build"](profile)
         if pre:
@@ -35,6 +35,26 @@ def generic(profile="verif", extra_sets=(), timeout_quick=1500, timeout_thorough
                 ctx["build"](prof)
                 s2, c2, t2 = ctx["run_shards"](ctx["pid"], ctx["tier"], ctx["seed"] + 7919, ctx["rundir"], n,
                                                ctx["vh_path"](prof), sets + ["build=" + prof], env, to, tag="-" + prof)
+                shards += s2
+                crashes += c2
+                timeouts += t2
+            for kind in sanitizers:
+                binary = ctx["build_sanitizer"](kind)
+                if not binary:
+                    continue
+                senv = dict(env or {})
+                senv["VERIF_SCALE"] = "25"
+                ssets = list(sets) + ["build=" + kind]
+                if kind == "asan":
+                    senv["ASAN_OPTIONS"] = "detect_leaks=0:halt_on_error=1:abort_on_error=1"
+                    if "LD_PRELOAD" in senv:
+                        continue  # the I/O shim and the ASan runtime both want to be first
+                else:
+                    senv["TSAN_OPTIONS"] = "halt_on_error=0:exitcode=66:second_deadlock_stack=1"
+                    ssets.append("tsan=1")
+                s2, c2, t2 = ctx["run_shards"](ctx["pid"], ctx["tier"], ctx["seed"] + 104729, ctx["rundir"], n, binary, ssets, senv, to, tag="-" + kind)
+                for s in s2:
+                    s.setdefault("counters", {})["%s_worker_runs" % kind] = 1
                 shards += s2
                 crashes += c2
                 timeouts += t2
@@ -95,7 +115,7 @@ PROPS = {
         "level": "exploration",
         "rule": HISTORY_RULE + "non-trivial = the history changed the structure of a tree at least once (leaf count or depth changed "
                 "between two commits, an overflow run was written, or the file grew) as measured on the file by the independent parser.",
-        "run": generic(thorough_profiles=("verif-rel",)),
+        "run": generic(sanitizers=('asan',), thorough_profiles=("verif-rel",)),
         "floors": {"any": {"commits": 100, "leaf_count_increases(splits)": 5, "leaf_count_decreases(merges)": 5,
                            "depth_decreases(root_collapse)": 1, "depth_increases": 1, "reopens": 10, "rollbacks": 5,
                            "commits_with_overflow_runs": 5}},
@@ -116,7 +136,7 @@ PROPS = {
         "rule": HISTORY_RULE + "Inside every write transaction, after EVERY operation, the whole visible state (recursive cursor walk, "
                 "point get/get_kv on every key and absent neighbours, seeks, kv_pairs, buckets, next_int, in every bucket) is compared with "
                 "the model. non-trivial = history with at least two such full in-transaction comparisons after mutations.",
-        "run": generic(thorough_profiles=("verif-rel",)),
+        "run": generic(sanitizers=('asan',), thorough_profiles=("verif-rel",)),
         "floors": {"any": {"full_state_verifications": 500}},
         "assumptions": ["a cursor is always created after the mutation it is expected to reflect"],
     },
@@ -130,7 +150,7 @@ PROPS = {
                 "filter semantics; next() is called 3 more times after every exhaustion; kv_pairs()/buckets() on cursors and on ranges. "
                 "exhaustive=true only if every tree got the full pair grid (large trees use a probe stride in the quick tier). "
                 "non-trivial = tree on which more than 10 seeks/ranges were compared.",
-        "run": generic(thorough_profiles=("verif-rel",)),
+        "run": generic(sanitizers=('asan',), thorough_profiles=("verif-rel",)),
         "floors": {"any": {"seeks": 200, "range_scans": 5000, "next_calls_after_exhaustion": 1000}},
         "assumptions": ["iteration after seek(absent key) may start at the predecessor or the successor (or at the end if there is no successor)"],
     },
@@ -261,7 +281,7 @@ PROPS = {
                 "committed state S_i with (#commits returned before its begin was called) <= i <= (#commits started before its begin returned); every "
                 "re-read must equal the first; no writer alive during the reader's life may have pages reachable from the reader's (older) snapshot in "
                 "its private free set (probe hook); nothing panics.",
-        "run": generic(thorough_profiles=(), nshards=16, timeout_quick=1800),
+        "run": generic(sanitizers=('tsan',), thorough_profiles=(), nshards=16, timeout_quick=1800),
         "floors": {"any": {"executions": 1000, "preemptions": 1000, "reader_transactions_judged": 1000, "readers_that_outlived_a_later_commit": 100,
                            "writer/reader_pairs_checked_for_free_set_safety": 500, "free_running_executions": 100}},
         "assumptions": ["the total order of harness events comes from one SeqCst counter", "schedules are enumerated at the instrumented yield points only"],
@@ -280,7 +300,7 @@ PROPS = {
                 "snapshot. Oracle: a harness-side flag strictly inside the span the write transaction is open must never see two writers; final counter "
                 "== committed increments == increment keys; no counter value read by two committed increments; every thread finishes: a state in which "
                 "every unfinished worker sits in a futex wait is a deadlock; a reader found blocked while no writer is extending the file is a violation.",
-        "run": generic(thorough_profiles=(), nshards=16, timeout_quick=1800),
+        "run": generic(sanitizers=('tsan',), thorough_profiles=(), nshards=16, timeout_quick=1800),
         "floors": {"any": {"executions": 1000, "preemptions": 1000, "committed_increments": 3000, "workers_found_blocked_on_a_lock": 50,
                            "free_running_executions": 100}},
         "assumptions": ["each thread holds at most one transaction", "deadlock = every live worker in a futex wait with no event for 20 ms (baton) / 300 ms (free running)"],
